@@ -368,6 +368,35 @@ static void explore(const MTab &T, const char *side, const Args &args)
             preimage_miss += miss;
             rep().sample(fmt("colsum-%s", e.name), fmt("\"w\":%u,\"kernel\":\"%s\",\"what\":\"all 4-tuples of row-result representations over %zu values fed to the column sums\",\"tuples\":%lld", W, e.name, n, c.cases), 1);
         }
+        // ------------------------------------------------------------ uniform: every state word = s, every coefficient = v, for all (s, v) over the
+        // representation alphabet (all lane values at w <= 4): the three blocks of a lane carry the same large product at once
+        if (!e.alias)
+        {
+            Counters c;
+            std::vector<u64> SV = (W <= 4) ? rep_alphabet(true) : (W == 32 ? alphabet(false) : rep_alphabet(false));
+            std::vector<u64> CV;
+            for (u64 v : SV) if (!e.small8 || v < B8) CV.push_back(v);
+            if (W == 32 && e.small8) { CV.clear(); for (u64 v = 0; v < B8; v++) CV.push_back(v); }
+            const int cl = coef_len(e.kind);
+            const long ns = (long)SV.size(), nc = (long)CV.size();
+#pragma omp parallel
+            {
+                Counters lc;
+                u64 st[24], co[144], out[24];
+#pragma omp for schedule(dynamic, 4)
+                for (long i = 0; i < ns; i++)
+                    for (long j = 0; j < nc; j++)
+                    {
+                        for (int t = 0; t < 24; t++) st[t] = SV[i];
+                        for (int u = 0; u < cl; u++) co[u] = CV[j];
+                        run_check(e, side, st, co, out, lc, "uniform");
+                        lc.cases++;
+                    }
+#pragma omp critical
+                { c.evals += lc.evals; c.cases += lc.cases; c.nontriv += lc.nontriv; }
+            }
+            tc.evals += c.evals; tc.cases += c.cases; tc.nontriv += c.nontriv;
+        }
         // ------------------------------------------------------------ routing (and, for the coefficient array, every address modulo 64)
         for (int pl = 0; pl < 8; pl++)
         {
